@@ -2,7 +2,7 @@
      iocase <id> <stack> <tree>
      <setup items>                      item language of fsdriver.ml
      q <query>                          one "M <id>#<n> <canonical result>" per query (n = index among the q lines);
-     end                                "q fstest" has no model line (it is the search oracle of the Go side)
+     end                                "q fstest" and "q mixed .." have no model line (search oracles of the Go side)
    The tree of the header is for the Go side only (its oracle knows what was built); the model sees the
    setup items.  Output also "D <id> <digest>" over the queries the vm_compute cross-check replays. *)
 open Model
@@ -147,7 +147,8 @@ let run_iocase hd (lines : string list) =
     let items = List.map (fun l -> Fsdriver.parse_item (tokens l)) setup in
     let toks = List.map (fun l -> tokens (String.sub l 2 (String.length l - 2))) qs in
     let indexed = List.mapi (fun i t -> (i, t)) toks in
-    let real = List.filter (fun (_, t) -> t <> ["fstest"]) indexed in
+    let oracle_only t = match t with "fstest" :: _ | "mixed" :: _ -> true | _ -> false in
+    let real = List.filter (fun (_, t) -> not (oracle_only t)) indexed in
     let tops = List.map (fun (_, t) -> parse_top t) real in
     let outs = io_run_all k items tops in
     List.iter2 (fun ((i, _), t) rs -> Printf.printf "M %s#%d %s\n" id i (canon_top t rs))
